@@ -129,11 +129,13 @@ def checkC02 (toks : List String) (res : String) : Option Verdict :=
   | _ => none
 
 /-- `wide_integer<DL,NL> OP wide_integer<DR,NR>` (different types): `Wide.wideCmp` transcribes
-`wide_integer/custom_operator.h` — two multi-limb representations of different widths are both converted to the
-wider one (the repair of the former class `C03.wide_mixed_width_comparison_narrows_rhs`, which is no longer
-excused: a recurrence is a violation).  Oracle: the order of the two values; for operands of different
-signedness only where the conversion to the wider type keeps both values (otherwise, as for built-in integers,
-the comparison is the one after conversion to the wider unsigned type and the property does not constrain it). -/
+`wide_integer/custom_operator.h` — where a multi-limb representation meets a representation of the other signedness
+a negative operand of the signed type decides; two multi-limb representations of different widths are both
+converted to the wider one (the repairs of the former classes `C03.wide_mixed_width_comparison_narrows_rhs` and
+`C03.wide_mixed_signedness_converts_to_unsigned`, which are no longer excused: a recurrence is a violation).
+Oracle: the order of the two values whenever at least one representation is multi-limb (an arbitrary-precision
+integer compares by value); two built-in representations of different signedness follow the built-in rule, so there
+the order of the values is demanded only where the conversion to the common type keeps both values. -/
 def checkWcmp (ops dl nl dr nr l r res : String) : Option Verdict := do
   let op ← parseCmpOp ops; let dl ← dl.toNat?; let nl ← parseIntTy nl; let dr ← dr.toNat?; let nr ← parseIntTy nr
   let l ← l.toInt?; let r ← r.toInt?
@@ -150,12 +152,11 @@ def checkWcmp (ops dl nl dr nr l r res : String) : Option Verdict := do
   let kind := match sl, sr with
     | .builtin _, .builtin _ => "bb" | .builtin _, .multi _ => "bm" | .multi _, .builtin _ => "mb" | .multi _, .multi _ => "mm"
   -- built-in representations of different signedness follow the built-in rule (the property says so);
-  -- a multi-word operand is an arbitrary-precision integer and must compare by value (known finding otherwise)
+  -- a multi-word operand is an arbitrary-precision integer and must compare by value
   let constrained := byValue || kind != "bb"
-  let cls := if !byValue && kind != "bb" then "C03.wide_mixed_signedness_converts_to_unsigned" else ""
-  some { model := showRes showBool m, spec := if constrained then some (res == showBool (WideSpec.specCmp op l r)) else none, cls := cls,
+  some { model := showRes showBool m, spec := if constrained then some (res == showBool (WideSpec.specCmp op l r)) else none,
          branch := "wcmp/" ++ ops ++ "/" ++ kind ++ (if rhsWider then "/rhs-wider" else if wl > wr then "/lhs-wider" else "/same-width")
-                   ++ (if nl.signed != nr.signed then "/mixed-sign" else ""),
+                   ++ (if nl.signed != nr.signed then (if byValue then "/mixed-sign" else "/mixed-sign-negative-vs-unsigned") else ""),
          nontrivial := true }
 
 /-- C03: comparisons agree with the order of the denoted values -/
